@@ -227,7 +227,8 @@ func vendorPlaces(dir, p string) []string {
 func trees(thorough bool) []tree {
 	var ts []tree
 	mains := []string{"m", "x/m", "x/y/m"}
-	paths := []string{"a", "x/a", "a/a", "x/y/a", "x/x"}
+	// "q/m" and "x/q/m" end with the last element of every entry directory; "y/m" also shares its parent with x/y/m
+	paths := []string{"a", "x/a", "a/a", "x/y/a", "x/x", "q/m", "x/q/m", "y/m"}
 	// F1: one import, present in every subset of its candidate places
 	for _, m := range mains {
 		for _, p := range paths {
@@ -260,6 +261,34 @@ func trees(thorough bool) []tree {
 					}
 				}
 				ts = append(ts, t)
+			}
+		}
+	}
+	// F5: like F2, but the transitively imported path ends with the last element of the importer's own directory
+	// (a imports q/a) or repeats its parent (x/a imports x/q/a)
+	for _, m := range []string{"x/m"} {
+		for _, aPlace := range vendorPlaces(m, "a") {
+			for _, b := range []string{"q/a", "a/q/a"} {
+				bPlaces := vendorPlaces(aPlace, b)
+				if !thorough && len(bPlaces) > 4 {
+					bPlaces = append(bPlaces[:3], bPlaces[len(bPlaces)-1])
+				}
+				for mask := 1; mask < 1<<len(bPlaces); mask++ {
+					t := tree{Name: fmt.Sprintf("F5 main=%s a@%s imports=%s present=%0*b", m, aPlace, b, len(bPlaces), mask), Main: m}
+					t.Pkgs = append(t.Pkgs, pkg{Dir: m, Name: "m", Imports: []string{"a"}}, pkg{Dir: aPlace, Name: "a", Imports: []string{b}})
+					ok := true
+					for k, pl := range bPlaces {
+						if mask&(1<<k) != 0 {
+							if pl == aPlace || pl == m {
+								ok = false
+							}
+							t.Pkgs = append(t.Pkgs, pkg{Dir: pl, Name: "a"})
+						}
+					}
+					if ok {
+						ts = append(ts, t)
+					}
+				}
 			}
 		}
 	}
